@@ -41,3 +41,47 @@ Definition get_bits (b : list bool) (pos len : N) : option N :=
 (* the (up to) 64 bits starting at pos; None iff pos >= length *)
 Definition get_word64 (b : list bool) (pos : N) : option N :=
   if pos <? lenN b then Some (bits_val (firstn 64 (skipn (N.to_nat pos) b))) else None.
+
+(* ---- mutation histories (C07): the 7 constructors/mutators on the plain list ---- *)
+Inductive bvop :=
+  | OFromBit (b : bool) (len : N)
+  | OFromBits (l : list bool)
+  | OPushBit (b : bool)
+  | OPushBits (bits len : N)
+  | OSetBit (pos : N) (b : bool)
+  | OSetBits (pos bits len : N)
+  | OExtend (l : list bool).
+
+(* the low n bits of v, least significant first *)
+Fixpoint low_bits (n : nat) (v : N) : list bool :=
+  match n with O => [] | S m => N.odd v :: low_bits m (N.div2 v) end.
+(* replace l[pos .. pos + length new) by new (pos + length new <= length l) *)
+Fixpoint overwrite (l : list bool) (pos : nat) (new : list bool) : list bool :=
+  match pos, l with
+  | O, _ => new ++ skipn (length new) l
+  | S p, x :: r => x :: overwrite r p new
+  | S _, [] => []
+  end.
+
+(* new contents and whether the call is accepted (Ok) or rejected (Err, contents unchanged) *)
+Definition apply_op (s : list bool) (o : bvop) : list bool * bool :=
+  match o with
+  | OFromBit b len => (repeat b (N.to_nat len), true)
+  | OFromBits l => (l, true)
+  | OPushBit b => (s ++ [b], true)
+  | OPushBits bits len =>
+      if len <=? 64 then (s ++ low_bits (N.to_nat len) bits, true) else (s, false)
+  | OSetBit pos b =>
+      if pos <? lenN s then (overwrite s (N.to_nat pos) [b], true) else (s, false)
+  | OSetBits pos bits len =>
+      if (len <=? 64) && (pos + len <=? lenN s)
+      then (overwrite s (N.to_nat pos) (low_bits (N.to_nat len) bits), true) else (s, false)
+  | OExtend l => (s ++ l, true)
+  end.
+
+Fixpoint run_ops (s : list bool) (ops : list bvop) : list bool * list bool :=
+  match ops with
+  | [] => (s, [])
+  | o :: r => let '(s', ok) := apply_op s o in
+              let '(s'', oks) := run_ops s' r in (s'', ok :: oks)
+  end.
